@@ -141,9 +141,12 @@ class FrozenDict(collections.abc.Mapping):
 
     def __hash__(self):
         if self._hash is None:
-            self._hash = 0
+            # accumulate locally and publish once: another thread hashing
+            # the same (shared) object must never see a partial value
+            result = 0
             for pair in self.items():
-                self._hash ^= hash(pair)
+                result ^= hash(pair)
+            self._hash = result
         return self._hash
 
     def __repr__(self):
